@@ -166,7 +166,7 @@ def btg_signature_hash(self, tx_out_script, unsigned_txs_out_idx, hash_type):
 
 # pycoin/coins/bgold/SolutionChecker.py :: BgoldSolutionChecker._signature_for_hash_type_segwit
 def btg_signature_for_hash_type(self, script, tx_in_idx, hash_type):
-    hash_type |= self.FORKID_BTG << 8
+    hash_type |= 79 << 8
     return from_bytes_32(double_sha256(self._segwit_signature_preimage(script, tx_in_idx, hash_type)))
 
 
